@@ -818,7 +818,7 @@ fn main() {
                 // the meaning function of the correctness theorem vs the value the real VM computes
                 let meaning = ck.model.ask(&format!("({ereq} {})", case.chains.as_deref().unwrap_or("")));
                 let bc = unit.program.to_bytecode(Some(unit.entry));
-                let real_value = match qverif::catch(|| run_limited(bc, &b, 100)) {
+                let real_value = match qverif::catch(|| run_limited(bc, &b, 1000)) {
                     Ok(Ok(Some((v, _)))) => format!("ok {}", frag1::show_value(&v)),
                     Ok(Ok(None)) => "step-budget-exhausted".to_string(),
                     Ok(Err(e)) => format!("error {e:?}"),
@@ -831,6 +831,11 @@ fn main() {
                     if real_value == "ok t(0;)" {
                         ev.hit("fragment1.value-nil");
                     }
+                } else if real_value == "step-budget-exhausted" && !meaning.trim().starts_with("stuck") {
+                    // call trees grow exponentially with the nesting of generated functions: a run that
+                    // needs more than a million instruction units is not compared (the model's value is
+                    // computed by structural recursion, it has no such budget)
+                    ev.hit("fragment1.real-run-over-budget");
                 } else if meaning.trim() == "stuck" && real_value == "step-budget-exhausted" {
                     // neither side terminates within its budget (the model's fuel, the VM's steps)
                     ev.hit("fragment1.both-out-of-budget");
